@@ -41,6 +41,7 @@ def tasks(tier):
     ts.append(("narrow",))
     ts.append(("extreme",))
     ts.append(("long", 0)); ts.append(("long", 1)); ts.append(("long", 2))
+    ts.append(("seq",))
     return ts
 
 
@@ -62,6 +63,9 @@ def check_case(case):
         kw["suspect_threshold"] = case["suspect"]
     if case["fail"] is not None:
         kw["fail_threshold"] = case["fail"]
+    for px in case.get("pre", ()):
+        # earlier calls in the same process (other, longer records): nothing of them may leak into the judged call
+        alpha.call(qartod.spike_test, alpha.nd(px), method=case["method"], **kw)
     out = alpha.call(qartod.spike_test, inp, method=case["method"], **kw)
     acceptable = R.spike(alpha.ref(x), case["suspect"], case["fail"], case["method"])
     vs, obs = judge_flags(PROP, "spike_test", out, acceptable, n, extra_sig=f"method={case['method']}")
@@ -90,6 +94,20 @@ def run_task(task, acc):
         x = base if task[1] == 0 else (base * 4 + base[:7] if task[1] == 1 else alpha.xl(SIGMA))
         cases = (dict(x=list(x), suspect=s, fail=f, method=m) for m in METHODS for s in THR for f in THR)
         run_cases(acc, cases, check_case)
+    elif kind == "seq":
+        def gen():
+            clean = [v for v in alpha.xl(SIGMA, 4000, 3) if v != alpha.NAN]
+            for ln in (40, 300, 1027, 2049):
+                longer = list(clean[: ln + 200])
+                for j in range(ln - 3, ln + 2):
+                    longer[j] = alpha.NAN
+                for d in (-1, 0, 1, 2):
+                    x = clean[5: 5 + ln + d]
+                    for m in METHODS:
+                        for s_, f_ in ((1.0, 2.0), (0.5, None)):
+                            yield dict(x=x, suspect=s_, fail=f_, method=m, pre=[longer])
+                            yield dict(x=x, suspect=s_, fail=f_, method=m, pre=[longer[:ln + 50], longer])
+        run_cases(acc, gen(), check_case)
     elif kind == "narrow":
         def gen():
             for carrier, base in (("f4", float(2 ** 24)), ("f2", float(2 ** 11))):
